@@ -5,18 +5,48 @@ import (
 	"github.com/markusressel/fan2go/internal/zzv"
 )
 
-//zzv:bound LIN = linear min/max curve, real Evaluate: smoothed temperature any finite float64 with |T| <= 2^40 milli-degrees; (min,max) from the documented family (quick) and additionally fully symbolic in -65536..65536 with min<max (thorough); value in 0..255, 255 at/above max, 0 at/below min, equal (+-1) to the documented ramp in between
-//zzv:bound STEP = linear step curve, real Evaluate -> CalculateInterpolatedCurveValue: step lists from the documented family (constants), temperature any finite float64 |T| <= 2^40; value in 0..255, the step's speed at a step temperature, first/last speed outside
+//zzv:bound LIN = linear min/max curve, real Evaluate: smoothed temperature any finite float64; (min,max) from the documented family (quick) and additionally fully symbolic in -65536..65536 with min<max (thorough); value in 0..255, 255 at/above max, 0 at/below min, equal (+-1) to the documented ramp in between
+//zzv:bound STEP = linear step curve, real Evaluate -> CalculateInterpolatedCurveValue: step lists from the documented family (constants), temperature any finite float64; value in 0..255, the step's speed at a step temperature, first/last speed outside, within 1 of the documented straight line in between (step lists with negative temperatures included)
 //zzv:bound FUN = function curves of all six types over 1..4 (thorough 1..8) members returning any ints in 0..255: result equals the named aggregate and lies in 0..255; depth-2 nesting run literally, deeper nesting follows by structural induction from the member contract 0..255
 //zzv:bound PID = PID curve through the real util.PidLoop.Loop: gains from {README example, +-defaults}, state and reading magnitudes <= 10^6, elapsed time any float64 >= 0 built as sec+ms: value in 0..255 and equal to int(Coerce(loop,0,1)*255)
-//zzv:outside step lists and gains outside the stated families; empty step/member lists (C11); non-finite sensor values (C08); temperatures beyond 2^40 m-degree
+//zzv:outside step lists and gains outside the stated families; empty step/member lists (C11); non-finite sensor values (C08)
 //zzv:opts fptimeout_quick=240
 
+// zzFiniteTemp: any finite float64 (the property's whole range, 1e300 included)
 func zzFiniteTemp(name string) float64 {
 	t := zzv.Float64(name)
-	zzv.Assume(t >= -1099511627776.0)
-	zzv.Assume(t <= 1099511627776.0)
+	zzv.Assume(zzv.IsFinite(t))
 	return t
+}
+
+// zzStepReference is the documented piecewise-linear interpolation, written without branching:
+// below the first step its speed, above the last step its speed, in between the straight line.
+func zzStepReference(steps map[int]float64, xs []int, t float64) float64 {
+	ref := steps[xs[0]]
+	for i := 0; i+1 < len(xs); i++ {
+		x0, x1 := float64(xs[i]), float64(xs[i+1])
+		y0, y1 := steps[xs[i]], steps[xs[i+1]]
+		seg := y0 + (t-x0)/(x1-x0)*(y1-y0)
+		ref = zzv.IteF(zzv.And(t >= x0, t < x1), seg, ref)
+	}
+	last := float64(xs[len(xs)-1])
+	ref = zzv.IteF(t >= last, steps[xs[len(xs)-1]], ref)
+	return ref
+}
+
+func zzSortedKeys(steps map[int]float64) []int {
+	var xs []int
+	for x := range steps {
+		xs = append(xs, x)
+	}
+	for i := 0; i < len(xs); i++ {
+		for j := i + 1; j < len(xs); j++ {
+			if xs[j] < xs[i] {
+				xs[i], xs[j] = xs[j], xs[i]
+			}
+		}
+	}
+	return xs
 }
 
 func zzLinearObligations(min, max int, T float64) {
@@ -80,6 +110,11 @@ func ZZ_C06_STEP_Family() {
 	}
 	zzv.Assert(zzv.Implies(T/1000 <= float64(lo), v == int(steps[lo])), "STEP.first_speed_below")
 	zzv.Assert(zzv.Implies(T/1000 >= float64(hi), v == int(steps[hi])), "STEP.last_speed_above")
+	// in between: the documented straight line (float32 rounding and Round of the implementation
+	// move the result by at most one)
+	ref := zzStepReference(steps, zzSortedKeys(steps), T/1000)
+	d := float64(v) - ref
+	zzv.Assert(zzv.And(d >= -1.0, d <= 1.0), "STEP.matches_documented_interpolation")
 }
 
 func zzAggregateRef(typ string, vals []int) int {
